@@ -77,11 +77,10 @@ fn run_call(task: usize, k: usize, call: &Call) -> CallOut {
         // log_start/log_finish run outside the call window: they hold the CURRENT_LOG write
         // lock while they work, and a panic injected there would poison it — something the
         // real code cannot do to itself (DESIGN.md §3.5).
-        // Initialise the version static first, so that log_start (which reads it with the
-        // write lock held) contains no scheduling point: the real lock is never held
-        // across a context switch.
-        let _ = guarded(task, prqlc::compiler_version);
-        match guarded(task, prqlc::debug::log_start) {
+        state().session_transition.push(task);
+        let started = guarded(task, prqlc::debug::log_start);
+        state().session_transition.retain(|t| *t != task);
+        match started {
             Ok(()) => {
                 let mut st = state();
                 st.session_open = true;
@@ -130,9 +129,12 @@ fn run_call(task: usize, k: usize, call: &Call) -> CallOut {
             st.session_open = false;
             st.ev(&format!("t{task} session finish"));
         }
-        if let Err(m) = guarded(task, || {
+        state().session_transition.push(task);
+        let finished = guarded(task, || {
             let _ = prqlc::debug::log_finish();
-        }) {
+        });
+        state().session_transition.retain(|t| *t != task);
+        if let Err(m) = finished {
             state().ev(&format!("t{task} session finish PANICKED"));
             out.obs = Obs::panic(format!("debug::log_finish panicked: {m}"));
         }
